@@ -286,6 +286,6 @@ pub fn def() -> PropertyDef {
             "size bound bits*capacity <= 256 (quick F) / 64 (quick R)".into(),
         ],
         exhaustive: false,
-        subs: vec![bind_sub::<F>((160, 6000)), bind_sub::<R>((24, 600))],
+        subs: vec![bind_sub::<F>((500, 8000)), bind_sub::<R>((80, 1000))],
     }
 }
